@@ -1830,3 +1830,66 @@ Proof.
       * simpl ordering at 1. etransitivity; eassumption.
       * intros o Ho. apply HrefAll, Href, Ho.
 Qed.
+
+(* ------------------------------------------------------------------------------------------------ *)
+(* reorder_sets *)
+Lemma pq_loop_post fuel : forall elems t t_final,
+  proper t = true -> pq_loop fuel elems t = Ok t_final ->
+  proper t_final = true /\ Ref t_final t /\ Permutation (ordering t) (ordering t_final) /\
+  forall w, In w elems -> forall o, Ord t_final o -> Interval (fun s => In w s) o.
+Proof.
+  induction elems as [|i rest IH]; intros t t_final Hp Hres; simpl in Hres.
+  - inversion Hres; subst. repeat split; auto using Ref_refl. intros w [].
+  - destruct t as [s|k cs]; [discriminate|].
+    destruct (set_contiguous fuel i (Node k cs)) as [[t' st]|e] eqn:E; [|discriminate]. simpl in Hres.
+    destruct (set_contiguous_post fuel i (Node k cs) t' st Hp E) as (HSt & HAl & _ & Hperm & Href).
+    assert (Hp2 : proper (flat_ret t') = true) by now apply AlmostProper_flat.
+    destruct (IH (flat_ret t') t_final Hp2 Hres) as (Hpf & Hreff & Hpermf & Hint).
+    split; [exact Hpf|]. split; [|split].
+    + intros o Ho. apply Href, Ref_flat_ret, Hreff, Ho.
+    + etransitivity; [exact Hperm|]. rewrite ordering_flat_ret in Hpermf. exact Hpermf.
+    + intros w [<-|Hw] o Ho.
+      * apply (CF_sound i t' (StOK_CF i t' st HSt)). apply Ref_flat_ret, Hreff, Ho.
+      * now apply (Hint w Hw).
+Qed.
+
+Lemma ordering_leaves F : flat_map ordering (map Leaf F) = F.
+Proof. induction F as [|s F IH]; simpl; [reflexivity|]. now rewrite IH. Qed.
+
+(* SOUNDNESS of the mirrored reorder_sets: an answer is a rearrangement of the family in which, for every element,
+   the sets containing it are consecutive.  elems is the order in which the elements are visited; it has to
+   cover the elements that occur in the sets. *)
+Theorem pq_reorder_sound elems F res :
+  incl (concat F) elems -> pq_reorder elems F = Ok res -> SetsOK F res.
+Proof.
+  intros Hcov Hres. unfold pq_reorder in Hres.
+  destruct (Nat.leb_spec (length F) 2) as [Hl|Hl].
+  - inversion Hres; subst. now apply small_family_ok.
+  - destruct (pq_loop (length F) elems (Node KP (map Leaf F))) as [t|e] eqn:E; [|discriminate].
+    assert (Hp : proper (Node KP (map Leaf F)) = true).
+    { apply proper_node_iff. split; [rewrite map_length; lia|]. apply Forall_map, Forall_forall. reflexivity. }
+    destruct (pq_loop_post _ _ _ _ Hp E) as (Hpf & Href & Hperm & Hint).
+    destruct t as [s|k cs]; [discriminate|]. inversion Hres; subst. clear Hres.
+    simpl ordering in Hperm at 1. rewrite ordering_leaves in Hperm.
+    split; [exact Hperm|]. intros v.
+    destruct (in_dec Nat.eq_dec v elems) as [Hv|Hv].
+    + apply (Hint v Hv). apply Ord_ordering.
+    + apply Interval_none. apply Forall_forall. intros s Hs Hvs. apply Hv, Hcov. apply in_concat.
+      exists s. split; [|exact Hvs]. eapply Permutation_in; [apply Permutation_sym; exact Hperm|exact Hs].
+Qed.
+
+Corollary pq_reorder_perm elems F res : pq_reorder elems F = Ok res -> Permutation F res.
+Proof.
+  intros Hres. unfold pq_reorder in Hres.
+  destruct (Nat.leb_spec (length F) 2) as [Hl|Hl]; [inversion Hres; reflexivity|].
+  destruct (pq_loop (length F) elems (Node KP (map Leaf F))) as [t|e] eqn:E; [|discriminate].
+  assert (Hp : proper (Node KP (map Leaf F)) = true).
+  { apply proper_node_iff. split; [rewrite map_length; lia|]. apply Forall_map, Forall_forall. reflexivity. }
+  destruct (pq_loop_post _ _ _ _ Hp E) as (_ & _ & Hperm & _).
+  destruct t as [s|k cs]; [discriminate|]. inversion Hres; subst.
+  simpl ordering in Hperm at 1. now rewrite ordering_leaves in Hperm.
+Qed.
+
+Corollary pq_reorder_sets_check elems F res :
+  incl (concat F) elems -> pq_reorder elems F = Ok res -> sets_check F res = true.
+Proof. intros H1 H2. apply sets_check_correct. now apply (pq_reorder_sound elems). Qed.
